@@ -139,7 +139,7 @@ fn main() {
     let svg = svgbob::to_svg_with_settings(&*bob, &settings);
 
     if let Some(file) = args.value_of("output") {
-        if let Err(e) = fs::write(file, &svg) {
+        if let Err(e) = write_output(Path::new(file), &svg) {
             use std::io::Write;
 
             writeln!(
@@ -257,6 +257,26 @@ fn convert_file(input: PathBuf, output: PathBuf) -> Result<(), Box<dyn Error>> {
     let mut f = File::open(&input)?;
     f.read_to_string(&mut bob).unwrap();
     let svg = svgbob::to_svg_with_settings(&*bob, &Settings::default());
-    fs::write(&output, &svg)?;
+    write_output(&output, &svg)?;
+    Ok(())
+}
+
+/// Write the document to `path`; if writing fails midway, do not leave a
+/// truncated document behind.
+fn write_output(path: &Path, svg: &str) -> std::io::Result<()> {
+    use std::io::Write;
+
+    let mut f = File::create(path)?;
+    if let Err(e) = f.write_all(svg.as_bytes()) {
+        drop(f);
+        // only ever remove a regular file we created or truncated ourselves
+        if fs::symlink_metadata(path)
+            .map(|m| m.is_file())
+            .unwrap_or(false)
+        {
+            let _ = fs::remove_file(path);
+        }
+        return Err(e);
+    }
     Ok(())
 }
